@@ -168,10 +168,25 @@ int main()
     }
     if (k == "end")
     {
-      // user releases its references, owner goes away, loops stop
+      // user releases its references, owner goes away, loops stop.
+      // Assumption of this property (DESIGN C02, residue R): the TcpServer object is not destroyed while a
+      // close of one of its connections is being processed on ANOTHER thread (removeConnection binds the raw
+      // `this`, "FIXME: unsafe").  With io threads the server is therefore deleted only after every connection
+      // has reported DOWN and has been destroyed; with 0 io threads everything runs on the base loop thread and
+      // a DESTROY may come at any point.
       for (auto& c : clientFd) if (c.second >= 0) ::close(c.second);
+      if (server)
+      {
+        waitFor([]() {
+          std::map<string, int> ups, downs;
+          for (const Ev& e : g_log) { if (e.kind == "Up") ++ups[e.conn]; if (e.kind == "Down") ++downs[e.conn]; }
+          for (auto& u : ups) if (downs[u.first] < 1) return false;
+          return true; }, 3000);
+      }
       ::usleep(20 * 1000);
       { std::lock_guard<std::mutex> l(g_mu); g_byPort.clear(); }
+      if (server)
+        waitFor([]() { for (auto& w : g_weak) if (!w.second.expired()) return false; return true; }, 3000);
       if (server)
       {
         CountDownLatch gone(1);
